@@ -752,3 +752,116 @@ def schema_required(P, rep, rule="SCHEMA.required"):
                           key=rule + "|fixed|" + l)
     if not bad:
         rep.ok(rule, "Object::write_schema: %d writes to /required, index 0 only when the array is absent, otherwise append" % len(writes), F.loc, F.qn)
+
+
+def schema_closed(P, rep, rule="SCHEMA.closed"):
+    rep.rule(rule, "unknown keys are rejected: every Types::Object declared by the library is closed (additional_properties false, the "
+                   "default), the constructor stores that flag and write_schema emits it as \"additionalProperties\"")
+    n = 0
+    for F in P.funcs.values():
+        if not F.tu.startswith("lib"):
+            continue
+        for x in F.walk():
+            if x.get("k") in ("CXXConstructExpr", "CXXTemporaryObjectExpr") and x.get("t", "").endswith("Types::Object") and not x.get("copy"):
+                a = x.get("c", [])
+                if len(a) < 2:
+                    continue
+                n += 1
+                flag = a[1]
+                v = sc(flag["c"][0]) if flag.get("k") == "CXXDefaultArgExpr" and flag.get("c") else sc(flag)
+                if v.get("k") == "CXXBoolLiteralExpr" and v.get("v") is False:
+                    continue
+                rep.violation(rule, "%s declares an open object (additional properties allowed: %s)" % (F.qn, norm.render(P, v)), F.nloc(x), F.qn, norm.render(P, x)[:100],
+                              "a misspelt or unknown key in that object is silently ignored", key="%s|%s|open" % (rule, F.qn), witness="file with a misspelt key")
+    rep.ok(rule, "%d Types::Object declarations, all closed" % n)
+    rep.floor(rule, n, 60, "Types::Object declarations")
+    ctor = [f for f in P.funcs_named("WorldBuilder::Types::Object::Object") if len(f.params) == 2 and "vector" in P.d(f.params[0]).get("t", "")]
+    okc = False
+    if len(ctor) == 1:
+        for ini in ctor[0].inits or []:
+            if ini.get("n") == "additional_properties" and ini.get("c") and astq.is_ref_to(ini["c"][0], ctor[0].params[1]):
+                okc = True
+    W = P.func("WorldBuilder::Types::Object::write_schema")
+    okw = False
+    for x in W.walk():
+        if x.get("k") == "CXXMemberCallExpr" and x["c"][0].get("n") == "Set":
+            lits = [y.get("v") for y in W.walk(x["c"][0]) if y.get("k") == "StringLiteral"]
+            if "/additionalProperties" in lits and astq.is_this_field(P, x["c"][-1], "additional_properties"):
+                okw = True
+    if okc and okw:
+        rep.ok(rule, "Object stores the flag and write_schema emits \"/additionalProperties\" from it", W.loc, W.qn)
+    else:
+        rep.violation(rule, "Types::Object does not carry its additional_properties flag into the schema (ctor: %s, write_schema: %s)" % (okc, okw), W.loc, W.qn, "",
+                      "unknown keys are not rejected", key=rule + "|plumbing", witness="file with an unknown key")
+
+
+def schema_keys(P, rep, rule="SCHEMA.keys"):
+    """writer/reader agreement on the generated schema: every schema keyword the parameter reader looks up is one the type
+    writers emit"""
+    rep.rule(rule, "every path component that Parameters looks up in the generated declarations (\"minItems\", \"default value\", \"items\", "
+                   "\"oneOf\", \"anyOf\", \"properties\", ...) is a component some Types::*::write_schema / declare function writes: the reader's and "
+                   "the writer's tables of schema keywords agree")
+    written = set()
+    read = {}
+    for F in P.funcs.values():
+        if not F.tu.startswith("lib"):
+            continue
+        for x in F.walk():
+            if x.get("k") != "CXXMemberCallExpr":
+                continue
+            name = x["c"][0].get("n")
+            if name not in ("Set", "Create", "Get"):
+                continue
+            recv = sc(x["c"][0]["c"][0]) if x["c"][0].get("c") else None
+            if recv is None or "GenericPointer" not in recv.get("t", ""):
+                continue
+            doc = norm.render(P, x["c"][1]) if len(x["c"]) > 1 else ""
+            lits = [y.get("v", "") for y in F.walk(recv) if y.get("k") == "StringLiteral"]
+            comps = set()
+            for l in lits:
+                for c in l.split("/"):
+                    if c and not c.isdigit() and c != "-":
+                        comps.add(c)
+            if name in ("Set", "Create") and "declarations" in doc:
+                written |= comps
+            elif name == "Get" and "declarations" in doc:
+                for c in comps:
+                    read.setdefault(c, (F, x))
+    # subsections entered while declaring also become path components
+    for F in P.funcs.values():
+        if not F.tu.startswith("lib"):
+            continue
+        for x in F.walk():
+            mc = astq.member_call(P, x, "enter_subsection")
+            if mc and mc[2]:
+                l = string_lit(F, mc[2][0])
+                if l:
+                    written.add(l)
+    missing = {c: site for c, site in read.items() if c not in written}
+    for c, (F, x) in sorted(missing.items()):
+        rep.violation(rule, "the reader looks up schema component \"%s\" which no writer emits" % c, F.nloc(x), F.qn, norm.render(P, x)[:120],
+                      "defaults / array sizes of absent entries cannot be retrieved: construction fails or uses garbage", key="%s|%s" % (rule, c),
+                      witness="a file that omits an optional list or a depth-surface entry")
+    # the reader's two work-horse lookups, by writer class: get_vector reads <name>/minItems (written by Types::Array) and
+    # <name>/items/default value; get<T> reads <name>/default value (written by each scalar type)
+    must = {"minItems": ["Array"], "default value": ["Double", "Int", "UnsignedInt", "Bool", "String"]}
+    for comp, classes in must.items():
+        if comp not in read:
+            continue
+        for cls in classes:
+            W = P.funcs_named("WorldBuilder::Types::%s::write_schema" % cls)
+            if not W:
+                rep.unknown(rule, "Types::%s::write_schema not found" % cls)
+                continue
+            lits = set()
+            for y in W[0].walk():
+                if y.get("k") == "StringLiteral":
+                    lits |= {c for c in y.get("v", "").split("/") if c}
+            if comp in lits:
+                rep.ok(rule, "Types::%s::write_schema writes \"%s\"" % (cls, comp), W[0].loc, W[0].qn)
+            else:
+                rep.violation(rule, "Types::%s::write_schema does not write \"%s\", which Parameters reads for entries of that type" % (cls, comp), W[0].loc, W[0].qn, "",
+                              "defaults / minimum sizes of absent entries of that type cannot be retrieved", key="%s|%s|%s" % (rule, cls, comp),
+                              witness="a file that omits an optional %s entry" % cls)
+    rep.ok(rule, "%d schema components read, all among the %d written" % (len(read), len(written)))
+    rep.floor(rule, len(read), 5, "schema components read by Parameters")
